@@ -2,9 +2,57 @@ from props._local import known_witnesses
 from props._solver import standard_run
 
 
+def var_heuristics(ctx, corr, viol):
+    """every shipped variable heuristic on random states: same pick as the model; an unbound decision domain is
+    returned whenever one exists (never the -1 that would be used as an index)"""
+    import random
+
+    import numpy as np
+
+    import nv
+    import nucs.heuristics.heuristics as H
+
+    rng = random.Random(ctx["seed"] + 401)
+    report = ctx["report"]
+    reqs = []
+    n = 400 if ctx["tier"] == "quick" else 8000
+    for _ in range(n):
+        nd = rng.randint(1, 6)
+        doms = []
+        for _ in range(nd):
+            a = rng.randint(0, 4)
+            doms.append((a, a + rng.choice([0, 0, 1, 2, 3])))
+        dec = [d for d in range(nd) if rng.random() < 0.8] or [0]
+        rng.shuffle(dec)
+        maxv = max(b for a, b in doms)
+        costs = [[rng.choice([1, 1, 2, 3, 5]) for _ in range(maxv + 1)] for _ in range(nd)]
+        for name in nv.VAR_HEURS:
+            fct = [f for f in H.VAR_HEURISTIC_FCTS if f.__name__ == name][0]
+            stack = np.zeros((2, nd, 2), dtype=np.int32)
+            stack[0] = doms
+            top = np.zeros(1, dtype=np.uint8)
+            params = np.array(costs if name == "max_regret_var_heuristic" else [[]], dtype=np.int64)
+            got = int(fct(params, np.array(dec, dtype=np.uint16), stack, top))
+            report.cov["evaluations"] += 1
+            unbound = [d for d in dec if doms[d][0] < doms[d][1]]
+            case = {"op": "varheur", "heuristic": name, "doms": doms, "decision": dec, "costs": costs}
+            if unbound and (got not in unbound):
+                viol.append(dict(case, kind="varheur", detail=f"returned {got} although the unbound decision domains are {unbound}"))
+            if not unbound and got != -1:
+                viol.append(dict(case, kind="varheur", detail=f"returned {got} although no decision domain is unbound"))
+            if unbound:
+                report.nontrivial((name, str(doms), str(dec)))
+            reqs.append((f"varheur {name} {nv.enc_rows(costs) if name == 'max_regret_var_heuristic' else '-'} {nv.enc_ints(dec)} {nv.enc_box(doms)}", str(got), case))
+    answers = nv.Model().ask([q for q, _, _ in reqs])
+    for (q, impl, case), ans in zip(reqs, answers):
+        if impl != ans:
+            corr.append(dict(case, implementation=impl, model=ans))
+
+
 def run(ctx):
     corr, viol = standard_run(ctx, "C04", {"term", "crash"}, 600, 10000,
                               ["two_no_sub_cycle_livelock", "optimize_unwatched_objective", "max_regret_ties"])
+    var_heuristics(ctx, corr, viol)
     return {"corr_diffs": corr, "violations": viol, "known": known_witnesses(ctx, "C04"),
             "component": "bcLoop fuel / solveOne fuel vs the real solver under a watchdog",
             "assumptions": ["a watchdog time-out on the implementation is reported as non-termination"]}
